@@ -908,6 +908,49 @@ def check_library(ctx, drv, lib, thorough, r, dis_gen, dis_call, extra_calls=())
         common.rmtree(d)
 
 
+class TextLib:
+    """hand-written descriptions for the text-only tie: implied / hidden arguments, list-mode arrays and vectors"""
+
+    def __init__(self, name, language, decls, options=None):
+        self.name, self.language, self.decls, self.options = name, language, decls, options or {}
+
+    def header_name(self):
+        return self.name + (".h" if self.language == "c" else ".hpp")
+
+    def yaml(self):
+        import yaml
+        opts = {"wrap_python": True, "wrap_c": False, "wrap_fortran": False, "wrap_lua": False}
+        opts.update(self.options)
+        return yaml.safe_dump({"library": self.name, "cxx_header": self.header_name(), "language": self.language,
+                               "options": opts, "declarations": [{"decl": d} for d in self.decls]},
+                              default_flow_style=False, sort_keys=False)
+
+    def header(self):
+        return "\n"
+
+    def subject_source(self):
+        return "\n"
+
+
+TEXT_LIBS = [
+    TextLib("implcxx", "c++", [
+        "int isum(const int *arr +rank(1), int n +implied(size(arr)))",
+        "void hid(int i, int *o +intent(out)+hidden)",
+        "void ov(int i, int n +implied(i+1))",
+        "void ov(double d, int *o +intent(out)+hidden, int k = 3)",
+        "void vec(const std::vector<int> &v, std::vector<double> &w +intent(out))",
+        "double dsum(double *arr +rank(1)+intent(inout), int n +implied(size(arr)), int scale = 2)",
+        "int three(int *a +intent(out), int *b +intent(inout), int *c +intent(out), int d = 1, int e = 2)",
+    ], {"PY_array_arg": "list"}),
+    TextLib("implc", "c", [
+        "int isum(const int *arr +rank(1), int n +implied(size(arr)))",
+        "void hid(int i, int *o +intent(out)+hidden)",
+        "double dsum(double *arr +rank(1)+intent(inout), int n +implied(size(arr)))",
+        "void cout(char *s +intent(out)+charlen(20), const char *t)",
+    ], {"PY_array_arg": "list"}),
+]
+
+
 def load_corpus():
     """corpus lines: JSON {"key": [cls|null, name], "pos": [...], "kw": {...}|null} run against the fixed library"""
     extra = []
@@ -944,10 +987,10 @@ def run(ctx):
     if not drv.available() or not ok:
         ctx.tie_broken("pydispatch-driver", "driver or proofs not built")
     libs = [pygen.fixed_cxx("fixlib")]
-    nrand = 6 if thorough else 1
+    nrand = 24 if thorough else 3
     for i in range(nrand):
         libs.append(pygen.random_cxx(r, "rnd%d" % i, nfunc=10 if thorough else 8))
-    for i in range(2 if thorough else 1):
+    for i in range(6 if thorough else 2):
         libs.append(pygen.random_c(r, "crn%d" % i, nfunc=10 if thorough else 6))
     extra = load_corpus()
     dis_gen, dis_call = [], []
@@ -955,9 +998,11 @@ def run(ctx):
         check_library(ctx, drv if drv.available() else _NoDriver(), lib, thorough, r, dis_gen, dis_call,
                       extra_calls=extra if li == 0 else ())
     # text-only tie on further descriptions (no compilation)
-    ntext = 60 if thorough else 15
+    ntext = 300 if thorough else 40
+    tlibs = list(TEXT_LIBS)
     for i in range(ntext):
-        lib = pygen.random_cxx(r, "txt%d" % i, nfunc=8) if i % 3 else pygen.random_c(r, "txc%d" % i, nfunc=8)
+        tlibs.append(pygen.random_cxx(r, "txt%d" % i, nfunc=8) if i % 3 else pygen.random_c(r, "txc%d" % i, nfunc=8))
+    for lib in tlibs:
         d = common.scratch()
         try:
             calls_rec, texts, _out = run_shroud(lib, d)
@@ -966,7 +1011,7 @@ def run(ctx):
         finally:
             common.rmtree(d)
     ctx.note("libraries_compiled", [l.name for l in libs])
-    ctx.note("libraries_text_only", ntext)
+    ctx.note("libraries_text_only", len(tlibs))
     ctx.note("disagreements_emitted_text", len(dis_gen))
     ctx.note("disagreements_calls", len(dis_call))
     if dis_gen:
